@@ -5,7 +5,7 @@
    with the C01 models of pycaption's own readers. *)
 From Coq Require Import List ZArith QArith Bool.
 From PV Require Import lib.Sx lib.Str lib.Result.
-From PV Require Import model.TimeRead model.Chain spec.SpecChain proofs.ChainFacts.
+From PV Require Import model.TimeRead spec.SpecTime model.Chain spec.SpecChain proofs.ChainFacts proofs.ChainDocFacts.
 Import ListNotations.
 Open Scope Z_scope.
 
@@ -79,6 +79,15 @@ Theorem C08_chain_model_meets_oracle : forall chain cs, chain_dom chain cs = tru
 Proof. exact run_model_meets_oracle. Qed.
 Print Assumptions C08_chain_model_meets_oracle.
 
+(* string level, MicroDVD: the document printed by the writer model (frames, text lines joined by '|', the
+   strip / replace clean-up loops), read back by the reader model: both frames floored, text lines unchanged *)
+Theorem C08_mdvd_roundtrip_string : forall cs,
+  dom_u 40000 0 (times_of_caps cs) -> text_dom cs = true ->
+  mdvd_read (mdvd_write cs)
+  = read_result (map (fun c => (fl 40000 (fst (fst c)), fl 40000 (snd (fst c)), snd c)) cs).
+Proof. exact mdvd_roundtrip_string. Qed.
+Print Assumptions C08_mdvd_roundtrip_string.
+
 (* ---- the domain restriction is necessary: cues shorter than the resolution (known findings) ---- *)
 Theorem C08_short_cues_srt_merge_refuted :
   exists chain cs, sorted_from 1 0 82800000000 cs = true /\ run_model chain cs <> Ok (expected chain cs).
@@ -102,3 +111,8 @@ Proof. vm_compute. reflexivity. Qed.
 Example C08_ex_mdvd_frame0 :
   TimeRead.mdvd_read (Str.lit "{0}{0}first") = Err ETiming.
 Proof. vm_compute. reflexivity. Qed.
+Example C08_ex_mdvd_string :
+  mdvd_write [(8039999, 8120001, [Str.lit "hello"; Str.lit "a b"])] = Str.lit "{200}{203}hello|a b
+" /\ mdvd_read (mdvd_write [(8039999, 8120001, [Str.lit "hello"; Str.lit "a b"])])
+     = Ok [(8000000, 8120000, [Str.lit "hello"; Str.lit "a b"])].
+Proof. vm_compute. split; reflexivity. Qed.
